@@ -105,9 +105,15 @@ def r30_cli_flow(ctx):
     dests = {_dest(fl, kw): (fl, kw) for fl, kw in specs}
     rep.need_anchor(rule, "options")
     reads = set()
+    argsv = "args"
+    for n in walk_no_nested(main.node):
+        if isinstance(n, ast.Assign) and isinstance(n.value, ast.Call) and \
+                U(n.value.func) == "parse_args" and isinstance(
+                    n.targets[0], ast.Name):
+            argsv = n.targets[0].id
     for n in walk_no_nested(main.node):
         if isinstance(n, ast.Attribute) and isinstance(n.value, ast.Name) \
-                and n.value.id == "args":
+                and n.value.id == argsv:
             reads.add(n.attr)
     for d in sorted(dests):
         rep.anchor(rule, "options")
@@ -120,7 +126,8 @@ def r30_cli_flow(ctx):
     want = {"parse_format": "args.parse_format", "utc_mode": "args.utc_mode",
             "calendar_mode": "args.calendar",
             "ref_point_str": "args.ref_point_str"}
-    got = {k.arg: U(k.value) for k in ctor[0].keywords} if ctor else {}
+    got = {k.arg: U(k.value).replace(argsv + ".", "args.")
+           for k in ctor[0].keywords} if ctor else {}
     rep.check(got == want, rule, ctx.fkey(main, None, "operator-keywords"),
               main.loc(), "--parse-format, --utc, --calendar and --ref reach "
               "the operator keyword of the same meaning",
@@ -145,9 +152,15 @@ def r30_cli_flow(ctx):
         bound = {}
         for i, a in enumerate(c.args):
             if i < len(params):
-                bound[params[i]] = U(a)
+                bound[params[i]] = U(a).replace(argsv + ".", "args.")
         for k in c.keywords:
-            bound[k.arg] = U(k.value)
+            bound[k.arg] = U(k.value).replace(argsv + ".", "args.")
+        tps = [U(n.targets[0]) for n in walk_no_nested(main.node)
+               if isinstance(n, ast.Assign) and U(n.value) ==
+               argsv + ".items[0]"]
+        for k_, v_ in list(bound.items()):
+            if v_ in tps:
+                bound[k_] = "time_point_str"
         exp = dict(zip(params, wiring[c.func.attr]))
         rep.check(bound == exp, rule,
                   ctx.fkey(main, None, "wiring:" + c.func.attr), main.loc(c),
@@ -167,9 +180,12 @@ def r30_cli_flow(ctx):
                   set(cal_choices) - set(modes)), P + ("C15",))
     fd = oper.methods["format_duration_str"]
     opt_keys = None
+    opt_dict = None
     for n in walk_no_nested(fd.node):
         if isinstance(n, ast.Assign) and isinstance(n.value, ast.Dict) and \
-                U(n.targets[0]) == "options":
+                {k.value for k in n.value.keys
+                 if isinstance(k, ast.Constant)} >= {"S", "M", "H"}:
+            opt_dict = n
             opt_keys = {k.value for k in n.value.keys
                         if isinstance(k, ast.Constant)}
     tot = dests.get("duration_print_format", ([], {}))[1].get("choices", [])
@@ -181,11 +197,14 @@ def r30_cli_flow(ctx):
     # --as-total scales
     if opt_keys is not None:
         scales = {}
+        secs = None
         for n in walk_no_nested(fd.node):
-            if isinstance(n, ast.Assign) and isinstance(n.value, ast.Dict) \
-                    and U(n.targets[0]) == "options":
-                for k, v in zip(n.value.keys, n.value.values):
-                    scales[k.value] = U(v)
+            if isinstance(n, ast.Assign) and isinstance(
+                    n.value, ast.Call) and U(n.value.func).endswith(
+                        ".get_seconds"):
+                secs = U(n.targets[0])
+        for k, v in zip(opt_dict.value.keys, opt_dict.value.values):
+            scales[k.value] = U(v).replace(secs or "time", "time")
         rep.check(scales == {"S": "time", "M": "time / 60",
                              "H": "time / 3600"}, rule,
                   ctx.fkey(fd, None, "total-units"), fd.loc(),
@@ -237,9 +256,15 @@ def r30_cli_flow(ctx):
     esc = any(isinstance(n, ast.ListComp) and "startswith('-P')" in U(n)
               for n in walk_no_nested(pa.node))
     strips = {}
+    pargs = "args"
+    for n in walk_no_nested(pa.node):
+        if isinstance(n, ast.Assign) and isinstance(n.value, ast.Call) and \
+                "parse_" in U(n.value.func) and "_args" in U(n.value.func) \
+                and isinstance(n.targets[0], ast.Name):
+            pargs = n.targets[0].id
     for n in walk_no_nested(pa.node):
         if isinstance(n, ast.Assign) and "replace('\\\\', '')" in U(n.value):
-            strips[U(n.targets[0])] = True
+            strips[U(n.targets[0]).replace(pargs + ".", "args.")] = True
     strip_fd = any("replace('\\\\', '')" in U(n)
                    for n in walk_no_nested(fd.node))
     rep.check(esc and strips.get("args.offsets1") and
@@ -253,13 +278,41 @@ def r30_cli_flow(ctx):
                                                  strip_fd), P)
     # (f) print in the notation parsed -----------------------------------------
     rule = "R30.notation"
-    src = U(dp.node)
-    okf = "dump_as_parsed=True" in src and \
-        "parse_format = time_point.dump_format" in src
+    # date_parse: the ISO 8601 branch parses with dump_as_parsed=True and
+    # returns (point, point.dump_format)
+    okf = False
+    ret = [n for n in walk_no_nested(dp.node) if isinstance(n, ast.Return)
+           and isinstance(n.value, ast.Tuple) and len(n.value.elts) == 2]
+    if ret:
+        ptv, fmv = U(ret[-1].value.elts[0]), U(ret[-1].value.elts[1])
+        parsed = any(
+            isinstance(n, ast.Assign) and U(n.targets[0]) == ptv and
+            isinstance(n.value, ast.Call) and
+            U(n.value.func).endswith("time_point_parser.parse") and any(
+                k.arg == "dump_as_parsed" and U(k.value) == "True"
+                for k in n.value.keywords) for n in walk_no_nested(dp.node))
+        kept = any(isinstance(n, ast.Assign) and U(n.targets[0]) == fmv and
+                   U(n.value) == ptv + ".dump_format"
+                   for n in walk_no_nested(dp.node))
+        okf = parsed and kept
     pts = oper.methods["process_time_point_str"]
-    okp = any(isinstance(n, ast.If) and U(n.test) == "print_format"
-              for n in walk_no_nested(pts.node)) and \
-        "self.date_format(parse_format, time_point)" in U(pts.node)
+    okp = False
+    for n in walk_no_nested(pts.node):
+        if isinstance(n, ast.Assign) and isinstance(
+                n.targets[0], ast.Tuple) and isinstance(
+                    n.value, ast.Call) and U(n.value.func).endswith(
+                        ".date_parse"):
+            tpv, fmv = [U(e) for e in n.targets[0].elts]
+            pf = pts.call_params[2] if len(pts.call_params) > 2 else \
+                "print_format"
+            for i_ in walk_no_nested(pts.node):
+                if isinstance(i_, ast.If) and U(i_.test) == pf and i_.orelse:
+                    okp = any(
+                        isinstance(x, ast.Return) and isinstance(
+                            x.value, ast.Call) and
+                        U(x.value.func).endswith(".date_format") and
+                        [U(a) for a in x.value.args] == [fmv, tpv]
+                        for x in i_.orelse)
     rep.check(okf and okp, rule, ctx.fkey(dp, None, "as-parsed"), dp.loc(),
               "an ISO 8601 argument is re-printed with the expression it "
               "was parsed with unless --print-format is given",
@@ -274,7 +327,7 @@ def r30_cli_flow(ctx):
         body = lp[0].body
         ok = len(body) == 2 and isinstance(body[0], ast.Expr) and \
             ".append(" in U(body[0]) and isinstance(body[1], ast.If) and \
-            ">= args.max_results" in U(body[1].test) and isinstance(
+            (">= %s.max_results" % argsv) in U(body[1].test) and isinstance(
                 body[1].body[0], ast.Break)
         ok = ok and any("'\\n'.join(" in U(n) for n in walk_no_nested(
             main.node) if isinstance(n, ast.Assign))
